@@ -22,4 +22,57 @@ theorem c05_bad_refs {R : Type} (mk : Bits → List R → Int → Option R) (dat
   have := rebuildFrom_bad_ref mk recs 0 k c r hk hr (by omega)
   simp [deserialize, hh, hrecs, this]
 
+theorem deserialize_header {R : Type} (mk : Bits → List R → Int → Option R) (d : Bytes)
+    (h : deserialize mk d ≠ none) : ∃ hd, deserializeBocHeader d = some hd := by
+  cases hh : deserializeBocHeader d with
+  | none => simp [deserialize, hh] at h
+  | some hd => exact ⟨hd, rfl⟩
+
+/-- truncation / extension, intrinsic form: of a byte string and a proper extension of it the parser accepts at most
+one (the header's length fields fix the only acceptable total length, and they lie inside every accepted prefix). -/
+theorem c05_trunc_ext {R : Type} (mk : Bits → List R → Int → Option R) (p t : Bytes) (ht : t ≠ []) :
+    deserialize mk p = none ∨ deserialize mk (p ++ t) = none := by
+  by_cases h1 : deserialize mk p = none
+  · exact Or.inl h1
+  · by_cases h2 : deserialize mk (p ++ t) = none
+    · exact Or.inr h2
+    · obtain ⟨a, ha⟩ := deserialize_header mk p h1
+      obtain ⟨b, hb⟩ := deserialize_header mk (p ++ t) h2
+      exact absurd (header_prefix_unique p t a b ha hb) ht
+
+/-- every proper prefix of an accepted input is rejected. -/
+theorem c05_truncation {R : Type} (mk : Bits → List R → Int → Option R) (d : Bytes) (hd : deserialize mk d ≠ none)
+    (p t : Bytes) (hpt : d = p ++ t) (ht : t ≠ []) : deserialize mk p = none := by
+  subst hpt
+  rcases c05_trunc_ext mk p t ht with h | h
+  · exact h
+  · exact absurd h hd
+
+/-- every proper extension of an accepted input is rejected. -/
+theorem c05_extension {R : Type} (mk : Bits → List R → Int → Option R) (d : Bytes) (hd : deserialize mk d ≠ none)
+    (t : Bytes) (ht : t ≠ []) : deserialize mk (d ++ t) = none := by
+  rcases c05_trunc_ext mk d t ht with h | h
+  · exact absurd h hd
+  · exact h
+
+/-- CRC protection, intrinsic form: if `d` (bytes < 256) is accepted and carries a CRC (flag bit 6 of the generic
+constructor, or magic acc3a728), then `d` with ANY single bit flipped is rejected — for every length of `d`. -/
+theorem c05_crc_single_bit_accepted {R : Type} (mk : Bits → List R → Int → Option R) (d : Bytes) (hwf : Bytes.WF d)
+    (h : Header) (hh : deserializeBocHeader d = some h) (hc : h.fl.hasCrc = true) (k : Nat) (hk : k < 8 * d.length) :
+    deserialize mk (flipBit d k) = none := by
+  have hj : k / 8 < d.length := by omega
+  obtain ⟨m0, m1, m2⟩ := flipMask_props k
+  have := header_crc_byte_error d hwf h hh hc (k / 8) hj (128 >>> (k % 8)) m0 m1 (fun _ => m2)
+  unfold flipBit
+  rw [show d.getD (k / 8) 0 = d[k / 8] by simp [List.getD_eq_getElem?_getD, hj]]
+  simp [deserialize, this]
+
+/-- more than single bits: any non-zero error pattern confined to one byte other than the flag byte. -/
+theorem c05_crc_byte_error {R : Type} (mk : Bits → List R → Int → Option R) (d : Bytes) (hwf : Bytes.WF d)
+    (h : Header) (hh : deserializeBocHeader d = some h) (hc : h.fl.hasCrc = true)
+    (j : Nat) (hj : j < d.length) (hj4 : j ≠ 4) (e : Nat) (he0 : 0 < e) (he : e < 256) :
+    deserialize mk (d.set j (d[j] ^^^ e)) = none := by
+  have := header_crc_byte_error d hwf h hh hc j hj e he0 he (fun h => absurd h hj4)
+  simp [deserialize, this]
+
 end TonVerif.Properties.C05
